@@ -112,12 +112,45 @@ def _restrict(t: "T", ckey: str, val: bool) -> "T":
     return T(t.op, t.name, [_restrict(a, ckey, val) for a in t.args], {k: _restrict(v, ckey, val) for k, v in t.kw.items()}, t.node)
 
 
+def fuse_comprehensions(t: "T") -> "T":
+    """each(comp(E, iter)) == E : an element of `[E for x in iter]` is E at that x (the comprehension variable is already
+    the term each(iter) inside E).  Only for comprehensions without conditions."""
+    if not t.args and not t.kw:
+        return t
+    args = [fuse_comprehensions(a) for a in t.args]
+    kw = {k: fuse_comprehensions(v) for k, v in t.kw.items()}
+    if t.op == "elem" and args and args[0].op == "comp" and len(args[0].args) == 2:
+        return args[0].args[0]
+    return T(t.op, t.name, args, kw, t.node)
+
+
+def nest(t: "T", *names) -> bool:
+    """True if nodes named names[0], names[1], ... occur nested in this order (each inside the previous one).  A name
+    matches a call / method call / attribute of that name, `each` matches an element-of, `param:x` a parameter."""
+    def match(x, nm):
+        if nm == "each":
+            return x.op == "elem"
+        if nm.startswith("param:"):
+            return x.op == "param" and x.name == nm[6:]
+        return x.op in ("call", "mcall", "attr", "free", "localfn") and x.name == nm
+    if not names:
+        return True
+    for x in t.walk():
+        if match(x, names[0]):
+            if len(names) == 1:
+                return True
+            if any(nest(c, *names[1:]) for c in list(x.args) + list(x.kw.values())):
+                return True
+    return False
+
+
 def canon(t: "T", max_conds: int = 6) -> "T":
     """Canonical form modulo the placement of conditionals: the term is Shannon-expanded over its distinct
     (positive) `ifexp` conditions in sorted order, so  f(a if c else b) == f(a) if c else f(b),
     `x if c else y` == `y if not c else x`, and nested tests on the same condition collapse.  Expressions are pure
     (terms carry no effects), so the rewriting preserves the value.  Terms with more than `max_conds` distinct
     conditions are returned unchanged."""
+    t = fuse_comprehensions(t)
     conds = {}
     for x in t.walk():
         if x.op == "ifexp":
